@@ -624,9 +624,284 @@ def sibling_arms_rule(ck, facts):
         ck.ok("R13.13", "SparqlNumber::abs: all %d arms apply an absolute-value operation" % len(targets))
 
 
+PRIM_INT = r"(isize|usize|i8|i16|i32|i64|i128|u8|u16|u32|u64|u128)"
+
+
+def unchecked_native_ops(fn):
+    """R13.15: overflowing operations on a native integer of the data: MIR overflow assertions, and calls of the operator
+    traits / abs / pow on primitive integers (which inherit the caller's overflow checks)."""
+    hits = []
+    for bi, b in enumerate(fn.blocks):
+        if b.get("cleanup"):
+            continue
+        t = b["t"]
+        if t["t"] == "assert" and str(t.get("kind", "")).startswith("overflow") and not t.get("exp"):
+            hits.append((str(t["kind"]).replace("overflow:", "").lower(), "%s:%s" % (t.get("file"), t.get("line"))))
+        if t["t"] == "call":
+            nm = t["f"].get("res_name") or t["f"].get("name") or ""
+            m = re.search(r"^<&?%s as std::ops::(Neg|Add|Sub|Mul|Div|Rem)(<.*>)?>::(neg|add|sub|mul|div|rem)$" % PRIM_INT, nm) \
+                or re.search(r"<impl %s>::(abs|pow)$" % PRIM_INT, nm)
+            if m and not t.get("exp"):
+                hits.append((nm.split("::")[-1], "%s:%s" % (t["file"], t["line"])))
+    return hits
+
+
+def native_arithmetic_rule(ck, facts):
+    import core
+    ck.control("R13.15", "pos_neg_of_native_int", bool(unchecked_native_ops(core.fixture_fn("pos_neg_of_native_int"))))
+    ck.control("R13.15", "neg_checked_neg", bool(unchecked_native_ops(core.fixture_fn("neg_checked_neg"))), expect=False)
+    fns = [f for f in facts.fns.values() if f.crate == "sophia_sparql" and re.search(r"sparql/src/value/_number\.rs$", f.file)
+           and not (f.impl and f.impl.get("derived"))]
+    n = 0
+    for f in sorted(fns, key=lambda x: x.id):
+        n += 1
+        for what, loc in unchecked_native_ops(f):
+            ck.bad("R13.15", "R13.15@%s#%s" % (panics.norm_key(f.name), what), "%s applies the overflowing `%s` to a native integer that comes from "
+                   "the data (xsd:integer literals are unbounded; the numeric tower switches to BigInt through checked_* "
+                   "elsewhere): panic in debug builds, wrapped result in release builds" % (f.name, what), loc)
+    ck.ok("R13.15", "numeric tower: %d functions, native-integer arithmetic only through checked operations" % n)
+    ck.floor("R13.15", "functions of the numeric tower", n, 40)
+
+
+def error_as_item_rule(ck, facts):
+    """R13.14: an element of a solution stream is a Result; asking an Option<Result<..>> only whether it is_some() counts an
+    error as a solution (ASK answered Ok(true) on a failing dataset)."""
+    n = 0
+    bad = 0
+    for f in sorted(facts.fns.values(), key=lambda x: x.id):
+        if f.crate != "sophia_sparql" or not re.search(CORE_FILES, f.file):
+            continue
+        n += 1
+        for bi, t in f.calls():
+            if call_name_matches(t, r"^std::option::Option::<T>::(is_some|is_none)$") and t["args"] and t["args"][0][0] != "k":
+                ty = f.locals[t["args"][0][1][0]]["ty"]
+                if re.match(r"^&?std::option::Option<std::result::Result<", ty):
+                    bad += 1
+                    ck.bad("R13.14", "R13.14@%s#error-counted-as-item" % panics.norm_key(f.name), "%s asks an Option<Result<..>> of a solution "
+                           "stream only whether it is_some(): an Err item counts as a solution (ASK { .. } answers Ok(true) when the "
+                           "dataset fails)" % f.name, "%s:%s" % (t["file"], t["line"]))
+    if not bad:
+        ck.ok("R13.14", "no Option<Result<..>> of the evaluator core is reduced to is_some()/is_none() (%d functions)" % n)
+
+
+def option_eq_rule(ck, facts):
+    """R13.16: values of ill-formed literals are `None`; comparing the Options themselves makes two different ill-formed
+    literals equal."""
+    fns = facts.find_fns(crate="sophia_sparql", name_re=r"^value::SparqlValue::sparql_eq$")
+    if len(fns) != 1:
+        ck.bad("R13.16", "R13.16@SparqlValue::sparql_eq#anchor", "anchor-missing (%d)" % len(fns))
+        return
+    f = fns[0]
+    hits = [t for c in facts.with_closures(f) for _, t in c.calls()
+            if re.search(r"^<std::option::Option<.*> as std::cmp::(PartialEq|PartialOrd)(<.*>)?>::(eq|ne|partial_cmp)$", t["f"].get("res_name") or t["f"].get("name") or "")
+            or (call_name_matches(t, r"cmp::PartialEq>?::(eq|ne)$|cmp::PartialOrd>?::partial_cmp$") and t["args"] and t["args"][0][0] != "k"
+                and re.match(r"^&?&?std::option::Option<", c.locals[t["args"][0][1][0]]["ty"]))]
+    if hits:
+        ck.bad("R13.16", "R13.16@SparqlValue::sparql_eq#option-compared", "sparql_eq compares the Option-al values of booleans / dateTimes: two "
+               "different ill-formed literals are `=` (None == None), and an ill-formed one is `!=` to every well-formed one "
+               "instead of a type error", "%s:%s" % (hits[0]["file"], hits[0]["line"]))
+    else:
+        ck.ok("R13.16", "sparql_eq compares values only when both are present")
+
+
+def library_panic_rule(ck, facts):
+    """R13.17: panic audit of the function library, the numeric tower and value comparison (armed after the hunt round)."""
+    from tables.sparql_lib_panics import TABLE as LIB
+    lib = [f for f in facts.fns.values() if f.crate == "sophia_sparql" and re.search(r"sparql/src/(function|value|expression)", f.file)
+           and not re.search(LITERAL_PARSING, f.name)]
+    sites = []
+    for f in sorted(lib, key=lambda x: x.id):
+        sites += panics.sites_of(f)
+    panics.classify(facts, sites, LIB)
+    for s in sites:
+        if s.kind == "validator-call":
+            continue
+        if s.status in ("auto", "audited", "r8.5"):
+            ck.ok("R13.17", s.key, s.reason)
+        else:
+            ck.bad("R13.17", "R13.17@" + s.key, "panic site in the SPARQL function library / value code is neither guarded nor audited: %s %s "
+                   "(%s); the arguments come from the data" % (s.kind, s.what, s.detail), s.loc)
+    ck.floor("R13.17", "functions of the function library and value modules", len(lib), 150)
+
+
+def rounding_arms_rule(ck, facts):
+    """R13.13b: CEIL / FLOOR / ROUND on decimals use a *directed* rounding of the decimal itself.  The sibling arms for floats call
+    f64::ceil / floor; the decimal arm had been written as `(d +/- 0.5).round(0)` with BigDecimal::round, which rounds half to
+    even: CEIL(1.0) = 2, FLOOR(1.0) = 0, ROUND(2.5) = 2."""
+    want = {"ceil": {"Ceiling"}, "floor": {"Floor"}, "round": {"Floor", "Ceiling", "HalfUp", "HalfDown", "Up", "Down"}}
+    for name, modes in sorted(want.items()):
+        fns = facts.find_fns(crate="sophia_sparql", name_re=r"^value::_number::SparqlNumber::%s$" % name)
+        if len(fns) != 1:
+            ck.bad("R13.13", "R13.13@SparqlNumber::%s#anchor" % name, "anchor-missing (%d)" % len(fns))
+            continue
+        fn = fns[0]
+        sw = [(bi, b["t"]) for bi, b in enumerate(fn.blocks) if b["t"]["t"] == "switch"
+              and (b["t"].get("variants") or {}).get("enum", "").endswith("_number::SparqlNumber")]
+        if len(sw) != 1:
+            ck.bad("R13.13", "R13.13@SparqlNumber::%s#shape" % name, "expected one match on SparqlNumber (found %d)" % len(sw), fn.loc)
+            continue
+        bi, t = sw[0]
+        names = t["variants"]["names"]
+        targets = {names[v]: tb for v, tb in t["vals"] if v in names}
+        rest = set(names.values()) - set(targets)
+        if len(rest) == 1:
+            targets[rest.pop()] = t["else"]
+        tb = targets.get("Decimal")
+        if tb is None:
+            ck.bad("R13.13", "R13.13@SparqlNumber::%s#shape" % name, "no Decimal arm", fn.loc)
+            continue
+        region = fn.reachable(tb, avoid={x for v2, x in targets.items() if v2 != "Decimal"})
+        calls = [(fn.blocks[b]["t"]["f"].get("res_name") or fn.blocks[b]["t"]["f"].get("name") or "") for b in region if fn.blocks[b]["t"]["t"] == "call"]
+        used = {st[2][1].get("vname") for b in region for st in fn.blocks[b]["s"]
+                if st[0] == "=" and st[2][0] == "agg" and str(st[2][1].get("def", "")).endswith("RoundingMode")}
+        half_even = any(re.search(r"bigdecimal::BigDecimal::round$", c) for c in calls)
+        if half_even or not (used and used <= modes):
+            ck.bad("R13.13", "R13.13@SparqlNumber::%s#decimal-rounding" % name, "the Decimal arm of %s %s: it must round the decimal itself with a "
+                   "directed mode (%s); `(d +/- 0.5).round(0)` moves decimals that are already integers (CEIL(1.0) = 2, FLOOR(1.0) = 0) "
+                   "and ROUND(2.5) = 2" % (name.upper(), "uses BigDecimal::round (half to even)" if half_even else "uses rounding mode(s) %s" % sorted(x for x in used if x),
+                                           "/".join(sorted(modes))), fn.loc)
+        else:
+            ck.ok("R13.13", "SparqlNumber::%s: Decimal arm rounds with RoundingMode::%s" % (name, "/".join(sorted(used))))
+
+
+def silent_stub_rule(ck, facts):
+    """R13.18: built-in functions that are not implemented evaluate to an expression error (FILTER drops the row, COALESCE picks its
+    fallback, ASK answers false): the property asks for an explicit not-implemented error of the query."""
+    fns = facts.find_fns(crate="sophia_sparql", name_re=r"^function::call_function$")
+    if len(fns) != 1:
+        ck.bad("R13.18", "R13.18@function::call_function#anchor", "anchor-missing (%d)" % len(fns))
+        return
+    fn = fns[0]
+    stubs = [t for _, t in fn.calls() if call_name_matches(t, r"^function::todo$")]
+    # a query can also be rejected as a whole before any expression is evaluated: then each of the three operators that
+    # evaluate expressions has a path building NotImplemented
+    guarded = 0
+    for op in ("filter", "extend", "order_by"):
+        for f in facts.find_fns(crate="sophia_sparql", name_re=r"^exec::ExecState::<'a, D>::%s$" % op):
+            if any(st[0] == "=" and st[2][0] == "agg" and st[2][1].get("vname") == "NotImplemented" for b in f.blocks for st in b["s"]):
+                guarded += 1
+    if stubs and guarded == 3:
+        ck.ok("R13.18", "call_function keeps %d not-implemented stubs, and filter / extend / order_by each reject a query with "
+              "NotImplemented before evaluating (which functions they reject is not decided)" % len(stubs))
+    elif stubs:
+        ck.bad("R13.18", "R13.18@function::call_function#silent-not-implemented", "%d arms of call_function (REGEX, REPLACE, STRLANG, STRDT, NOW, TZ, "
+               "TIMEZONE, UUID, STRUUID, MD5, SHA*, SUBJECT/PREDICATE/OBJECT and every function called by IRI, i.e. the XSD casts) "
+               "print a line on stderr and evaluate to an ordinary expression error: FILTER(REGEX(..)) and FILTER(!REGEX(..)) both "
+               "return no rows, ASK { .. FILTER(xsd:integer(?o) = 1) } answers false, COALESCE(REPLACE(..), \"x\") returns \"x\" - a "
+               "wrong answer instead of the not-implemented error" % len(stubs), "%s:%s" % (stubs[0]["file"], stubs[0]["line"]))
+    else:
+        ck.ok("R13.18", "call_function: no arm evaluates to the silent not-implemented stub")
+
+
+def projection_rule(ck, facts):
+    """R13.19: Project restricts the *solutions* to the projected variables (a sub-select hides its other variables from the
+    enclosing group, and is not pre-bound by variables it does not project)."""
+    fns = facts.find_fns(crate="sophia_sparql", name_re=r"^exec::ExecState::<'a, D>::project$")
+    if len(fns) != 1:
+        ck.bad("R13.19", "R13.19@ExecState::project#anchor", "anchor-missing (%d)" % len(fns))
+        return
+    fn = fns[0]
+    writes_iter = any(st[0] == "=" and len(st[1]) > 1 and str(st[1][-1]).endswith(":iter") for b in fn.blocks for st in b["s"])
+    builds = any(st[0] == "=" and st[2][0] == "agg" and str(st[2][1].get("def", "")).endswith("binding::Bindings") for b in fn.blocks for st in b["s"])
+    if writes_iter or builds:
+        ck.ok("R13.19", "ExecState::project rebuilds the solution stream (restriction to the projected variables)")
+    else:
+        ck.bad("R13.19", "R13.19@ExecState::project#solutions-not-restricted", "project replaces the list of column names only; the solutions keep "
+               "every variable of the inner pattern, and the inner pattern is evaluated under the whole outer binding: "
+               "`{ {SELECT ?s {?s :p ?o}} FILTER(bound(?o)) }` keeps its rows, BIND(?o AS ?x) after the sub-select binds ?x, and "
+               "`GRAPH ?g { SELECT ?s { ?s :b ?g } }` pre-binds the sub-select's local ?g", fn.loc)
+
+
+def graph_existence_rule(ck, facts):
+    """R13.20: GRAPH <g> { P } / GRAPH ?g { P } have no solution for a graph that does not exist (SPARQL 18.6); when P needs no
+    triple (the empty group, BIND, FILTER NOT EXISTS) that has to be tested explicitly."""
+    fns = facts.find_fns(crate="sophia_sparql", name_re=r"^exec::ExecState::<'a, D>::graph$")
+    if len(fns) != 1:
+        ck.bad("R13.20", "R13.20@ExecState::graph#anchor", "anchor-missing (%d)" % len(fns))
+        return
+    fn = fns[0]
+    sw = [(bi, b["t"]) for bi, b in enumerate(fn.blocks) if b["t"]["t"] == "switch"
+          and (b["t"].get("variants") or {}).get("enum", "").endswith("NamedNodePattern")]
+    if len(sw) != 1:
+        ck.bad("R13.20", "R13.20@ExecState::graph#shape", "expected one match on NamedNodePattern (found %d)" % len(sw), fn.loc)
+        return
+    bi, t = sw[0]
+    names = t["variants"]["names"]
+    targets = {names[v]: tb for v, tb in t["vals"] if v in names}
+    rest = set(names.values()) - set(targets)
+    if len(rest) == 1:
+        targets[rest.pop()] = t["else"]
+    tb = targets.get("NamedNode")
+    region = fn.reachable(tb, avoid={x for k, x in targets.items() if k != "NamedNode"}) if tb is not None else set()
+    tested = False
+
+    def scan(f, blocks, depth):
+        nonlocal tested
+        for b in blocks:
+            tt = f.blocks[b]["t"]
+            if tt["t"] == "call":
+                if re.search(r"(named_graphs|graph_names|binary_search)$", tt["f"].get("res_name") or tt["f"].get("name") or ""):
+                    tested = True
+                callee = facts.fns.get(tt["f"].get("res") or "")
+                if callee is not None and callee.crate == "sophia_sparql" and depth < 2 and not re.search(r"::select$", callee.name):
+                    for c in facts.with_closures(callee):
+                        scan(c, range(len(c.blocks)), depth + 1)
+            for st in f.blocks[b]["s"]:
+                if ":named_graphs" in str(st):
+                    tested = True
+    scan(fn, region, 0)
+    # the empty set of graph names of GRAPH ?g must not fall back to evaluating the pattern once
+    fallback = False
+    for b2, t2 in fn.calls():
+        if call_name_matches(t2, r"BTreeSet::<T, A>::is_empty$|BTreeSet::<T>::is_empty$"):
+            bs = bool_switch(fn, fn.blocks[b2]["t"]["to"])
+            # ... evaluating the pattern once and returning that very result (the tail call `self.select(inner, &[], binding)`)
+            if bs and any(call_name_matches(fn.blocks[x]["t"], r"ExecState::<'a, D>::select$") and fn.blocks[x]["t"]["dest"] == [0]
+                          for x in fn.reachable(bs[1], avoid={bs[2]}) if fn.blocks[x]["t"]["t"] == "call"):
+                fallback = True
+    if tested and not fallback:
+        ck.ok("R13.20", "ExecState::graph tests the existence of the named graph")
+    else:
+        ck.bad("R13.20", "R13.20@ExecState::graph#graph-existence-not-tested", "GRAPH with a constant name evaluates the inner pattern without "
+               "testing that the graph exists%s: `ASK { GRAPH <tag:nowhere> {} }` is true, `GRAPH <tag:nowhere> { BIND(1 AS ?x) }` has a "
+               "solution, and on a dataset without named graphs `SELECT ?g { GRAPH ?g {} }` returns one row with ?g unbound "
+               "(SPARQL 18.6: no solution)" % (", and GRAPH ?g over an empty set of graph names evaluates the pattern once" if fallback else ""), fn.loc)
+
+
+def base_iri_rule(ck, facts):
+    """R13.21: the base IRI of the query reaches the evaluator (IRI()/URI() resolve their argument against it)."""
+    fns = [f for f in facts.fns.values() if f.crate == "sophia_sparql" and re.search(r"SparqlWrapper<'.*as sophia_api::sparql::SparqlDataset>::query$|SparqlDataset>::query$", f.name)]
+    if len(fns) != 1:
+        ck.bad("R13.21", "R13.21@SparqlWrapper::query#anchor", "anchor-missing (%d)" % len(fns))
+        return
+    fn = fns[0]
+    from mirutil import uses_of_local
+    refs = [st[1][0] for b in fn.blocks for st in b["s"] if st[0] == "=" and st[2][0] == "ref" and any(str(p).endswith(":base_iri") for p in st[2][2][1:])
+            and re.search(r"d\d+:(Select|Ask)", str(st[2][2]))]
+    if not refs:
+        ck.bad("R13.21", "R13.21@SparqlWrapper::query#anchor", "anchor-missing: the base_iri field of Query::Select / Query::Ask", fn.loc)
+        return
+    used = [l for l in refs if any(k != "drop" for _, k, _ in uses_of_local(fn, l))]
+    if used:
+        ck.ok("R13.21", "SparqlWrapper::query hands the query's base IRI on")
+    else:
+        ck.bad("R13.21", "R13.21@SparqlWrapper::query#base-iri-dropped", "the base IRI of a SELECT / ASK query is bound and never used: IRI(\"o\") / "
+               "URI(\"o\") return the relative IRI <o>, which matches no term of the data, while <o> written in the same query was resolved "
+               "by the parser; without a BASE a relative argument is not an error either", fn.loc)
+
+
 def run(ck, facts, tier):
     facts.require_crates(["sophia_sparql"])
     sibling_arms_rule(ck, facts)
+    rounding_arms_rule(ck, facts)
+    native_arithmetic_rule(ck, facts)
+    error_as_item_rule(ck, facts)
+    option_eq_rule(ck, facts)
+    library_panic_rule(ck, facts)
+    silent_stub_rule(ck, facts)
+    projection_rule(ck, facts)
+    graph_existence_rule(ck, facts)
+    base_iri_rule(ck, facts)
     literal_parsing_rule(ck, facts)
     error_semantics_rule(ck, facts)
     value_class_rule(ck, facts)
